@@ -699,7 +699,11 @@ Section Bodies.
         let k := comps p in
         if is_nil k then (HUnmodelled, w)
         else if str_eqb op (E "rmtree") then (HNone, set_img w (img_rmtree k (w_img w)))
-        else if str_eqb op (E "mkdir") then env_put k (NDir 493) w
+        else if str_eqb op (E "mkdir") then
+          match img_get k (w_img w) with
+          | Some (NDir _) => (HNone, w)                 (* an existing directory is left alone *)
+          | _ => env_put k (NDir 493) w
+          end
         else (HUnmodelled, w)
     | [op; p; c] =>
         let k := comps p in
